@@ -3,9 +3,11 @@
 package broker
 
 import (
+	"net"
 	"time"
 
 	"github.com/256dpi/gomqtt/packet"
+	"github.com/256dpi/gomqtt/transport"
 )
 
 // VerifC12Will: the will is published exactly once iff the client was accepted and the
@@ -156,4 +158,86 @@ func VerifC12Resume() {
 	vAssert(be.terminatesOf(c2) == 1, "Terminate exactly once")
 	vAssert(chanClosed(c2.Closed()), "closed signal fires")
 	vCover("c12-resume-end")
+}
+
+// vServer: a transport.Server whose Accept blocks until it is closed.
+type vServer struct{ closeCh chan struct{} }
+
+func (s *vServer) Accept() (transport.Conn, error) {
+	<-s.closeCh
+	return nil, errVConnClosed
+}
+func (s *vServer) Close() error   { close(s.closeCh); return nil }
+func (s *vServer) Addr() net.Addr { return nil }
+
+// VerifC12KeepAlive: the ends that depend on time and on the engine. The engine applies the
+// connect timeout until a CONNECT was accepted, then the read timeout is 1.5 x the keep-alive
+// requested by the client (0 or more than the maximum: the maximum, 5 min by default), so a
+// silent client is detected; when the timeout expires the will is published once. An engine
+// that was shut down takes no new connection: it is closed at once, nothing is set up.
+func VerifC12KeepAlive() {
+	be := newRecBackend()
+	eng := NewEngine(be)
+	eng.ConnectTimeout = 7 * time.Second
+	srv := &vServer{closeCh: make(chan struct{})}
+	eng.Accept(srv)
+	conn := newVConn(false)
+	if vBool("engineclosed") {
+		srv.Close()
+		eng.Close()
+		vAssert(!eng.Handle(conn), "an engine that was shut down refuses the connection")
+		vAssert(conn.isClosed(), "and closes it")
+		conn.in <- mkConnect("c", true, &packet.Message{Topic: "will"})
+		vQuiesce()
+		vAssert(be.setups == 0 && len(be.publishes) == 0 && conn.sentCount() == 0, "nothing is processed for it")
+		vAssert(vLive() == 0, "no goroutine is left")
+		vCover("c12-engine-closed")
+		return
+	}
+	vAssert(eng.Handle(conn), "a running engine takes the connection")
+	vAssert(conn.timeout == 7*time.Second, "until a CONNECT arrives the connect timeout applies")
+	vAssert(conn.limit == eng.ReadLimit, "the engine's read limit is applied")
+	var ka uint16
+	var want time.Duration
+	switch vChoice("keepalive", 6) {
+	case 0:
+		ka, want = 0, 450*time.Second
+	case 1:
+		ka, want = 1, 1500*time.Millisecond
+	case 2:
+		ka, want = 10, 15*time.Second
+	case 3:
+		ka, want = 300, 450*time.Second
+	case 4:
+		ka, want = 301, 450*time.Second
+	case 5:
+		ka, want = 65535, 450*time.Second
+	}
+	cp := mkConnect("c", vBool("clean"), &packet.Message{Topic: "will", Payload: []byte{1}, QOS: 1})
+	cp.KeepAlive = ka
+	conn.in <- cp
+	vQuiesce()
+	vAssert(conn.sentCount() == 1 && !conn.isClosed(), "accepted: CONNACK written, connection open")
+	vAssert(conn.timeout == want, "read timeout = 1.5 x the granted keep-alive")
+	if vBool("ping") { // a PINGREQ in time keeps the connection
+		conn.in <- packet.NewPingreq()
+		vQuiesce()
+		vAssert(conn.sentCount() == 2 && !conn.isClosed(), "PINGRESP, connection stays open")
+		vAssert(len(be.publishes) == 0, "no will while the client is alive")
+	}
+	// keep-alive expiry: the transport's Receive fails with a timeout
+	close(conn.in)
+	vQuiesce()
+	n := 0
+	for _, m := range be.publishes {
+		if m.Topic == "will" {
+			n++
+		}
+	}
+	vAssert(n == 1, "keep-alive expiry: the will is published exactly once")
+	vAssert(conn.isClosed(), "connection closed")
+	srv.Close()
+	eng.Close()
+	vAssert(vLive() == 0, "no goroutine is left")
+	vCover("c12-keepalive-end")
 }
